@@ -1,5 +1,5 @@
 """C08 — recurse always re-enters the overloaded function that was actually called (rewriting half)."""
-import os, json, ast, shutil, tempfile, warnings, collections, hashlib, linecache
+import os, re, json, ast, shutil, tempfile, warnings, collections, hashlib, linecache
 from .. import model
 from .. import rewrite_lang as RL
 from .. import rewrite_rt as RT
@@ -258,22 +258,40 @@ def check_graph(ctx, case, work, stats=None):
                 if not ok and not (uses_kw(nodes2, L, v, memo2) and got[0] == "TypeError"):
                     problems.append((f"after registering a {t} method on f{L} (already in use): node f{L} on {v!r}: got {got}, a function that re-enters itself gives {exp}\n{src}\n{late_src}", "property", None))
                     break
-    # the adapted methods name only their own function's table (what the model's rewriting for that id produces)
+    # the adapted methods name only their own function's table (what the model's rewriting for that id produces).  The names the
+    # rewriter injects are recognised by role, not by spelling: a global the adapted code refers to that the source text never
+    # mentions, whose value is a dispatch table (MultiTypeMap) or an ovld / its dispatch function
+    from ovld.core import Ovld
+    from ovld.typemap import MultiTypeMap
+    try:
+        written = {n.id for n in ast.walk(ast.parse(src)) if isinstance(n, ast.Name)} | {n.name for n in ast.walk(ast.parse(src)) if isinstance(n, (ast.FunctionDef, ast.ClassDef))}
+    except SyntaxError:
+        written = set()
+
+    def all_names(co):
+        out = set(co.co_names)
+        for c in co.co_consts:
+            if hasattr(c, "co_names"):
+                out |= all_names(c)
+        return out
     for i in range(len(nodes)):
         ov = getattr(g[f"f{i}"], "__ovld__", g[f"f{i}"])
         ov.ensure_compiled()
         for handler in set(ov.map.type_tuples.keys()):
-            names = set(handler.__code__.co_names) | {n for c in handler.__code__.co_consts if hasattr(c, "co_names") for n in c.co_names}
-            mangled = {n for n in names if n.startswith("___MAP") or n.startswith("___OVLD")}
+            names = all_names(handler.__code__)
             if stats is not None:
                 stats["adapted_methods_checked"] += 1
-            allowed = {f"___MAP{ov.id}", f"___OVLD{ov.id}"}
-            if not mangled <= allowed:
-                problems.append((f"method {handler.__name__} adapted for f{i} (id {ov.id}) names {sorted(mangled)}\n{src}", "correspondence", None))
-            for n in mangled:
+            spelled = {n for n in names if re.fullmatch(r"___(MAP|OVLD)\d+", n)}
+            if not spelled <= {f"___MAP{ov.id}", f"___OVLD{ov.id}"}:
+                problems.append((f"method {handler.__name__} adapted for f{i} (id {ov.id}) names {sorted(spelled)}\n{src}", "correspondence", None))
+            for n in sorted(names - written):
                 obj = handler.__globals__.get(n)
-                if (n.startswith("___MAP") and obj is not ov.map) or (n.startswith("___OVLD") and obj is not ov.dispatch):
-                    problems.append((f"{n} in the globals of {handler.__name__} is not f{i}'s own table / function\n{src}", "property", None))
+                if isinstance(obj, MultiTypeMap) and obj is not ov.map:
+                    problems.append((f"{n} in the globals of {handler.__name__} is a dispatch table but not f{i}'s own\n{src}", "property", None))
+                elif (isinstance(obj, Ovld) or hasattr(obj, "__ovld__")) and getattr(obj, "__ovld__", obj) is not ov:
+                    problems.append((f"{n} in the globals of {handler.__name__} is a function other than f{i}\n{src}", "property", None))
+                elif stats is not None and (isinstance(obj, MultiTypeMap) or hasattr(obj, "__ovld__") or isinstance(obj, Ovld)):
+                    stats["own_table_references"] += 1
     return problems
 
 
@@ -310,7 +328,10 @@ def model_tie(ctx, stats, n):
             if (st == "usage") != bool(mr[0]):
                 ctx.violation("UsageError disagreement", {"kind": "tie", "nid": nid, "code": code, "body": body}, kind="correspondence")
             continue
-        real = [RL.stmt_from_ast(s) for s in new.body[0].body]
+        try:
+            real = [RL.stmt_from_ast(s) for s in new.body[0].body]
+        except RL.Unmodelled as e:
+            real = ["unmodelled", str(e)]
         if RL.canon_tmps(real) != RL.canon_tmps(mr[1]):
             ctx.violation(f"rewriting for function id {nid} differs from the model's\n{src}{ast.unparse(new)}\n{RL.body_src(mr[1])}",
                           {"kind": "tie", "nid": nid, "code": code, "body": body}, kind="correspondence")
@@ -335,7 +356,7 @@ def run(ctx):
     warnings.simplefilter("ignore")
     stats = {"evaluations": 0, "calls": 0, "distinct": set(), "traces_validated": 0, "depth_hist": collections.Counter(),
              "outcomes": collections.Counter(), "graphs": 0, "kinds": collections.Counter(), "hows": collections.Counter(),
-             "adapted_methods_checked": 0, "model_tie": 0, "fan_in_2": 0, "depth_ge_2": 0, "calls_after_late_registration": 0}
+             "adapted_methods_checked": 0, "own_table_references": 0, "model_tie": 0, "fan_in_2": 0, "depth_ge_2": 0, "calls_after_late_registration": 0}
     samples = []
     work = tempfile.mkdtemp(prefix="c08_")
     try:
@@ -369,7 +390,7 @@ def run(ctx):
             "samples": samples, "graphs": stats["graphs"], "graphs_with_mixin_fan_in": stats["fan_in_2"], "graphs_with_derivation_depth_ge_2": stats["depth_ge_2"],
             "node_kinds": dict(stats["kinds"]), "method_kinds": dict(stats["hows"]), "calls": stats["calls"],
             "input_depth_histogram": {str(k): v for k, v in sorted(stats["depth_hist"].items())}, "call_outcomes": dict(stats["outcomes"]),
-            "adapted_methods_checked_for_own_table": stats["adapted_methods_checked"], "calls_after_a_late_registration": stats["calls_after_late_registration"], "model_tie_rewritings": stats["model_tie"],
+            "adapted_methods_checked_for_own_table": stats["adapted_methods_checked"], "injected_references_found_to_be_own": stats["own_table_references"], "calls_after_a_late_registration": stats["calls_after_late_registration"], "model_tie_rewritings": stats["model_tie"],
             "traces_validated_against_impl": stats["traces_validated"]}
 
 
